@@ -13,6 +13,15 @@ def lattice(case_lat):
 def species_objs(symbols, kind='Species'):
     from pymatgen.core import Element, Species
 
+    if kind == 'Species-mixed':
+        # one element in two oxidation states (every other occurrence), e.g. Fe2+ / Fe3+
+        base = {'Li': 1, 'Na': 1, 'S': -2, 'O': -2, 'P': 3, 'Si': 2}
+        seen = {}
+        out = []
+        for s in symbols:
+            seen[s] = seen.get(s, 0) + 1
+            out.append(Species(s, base.get(s, 0) + (2 if (seen[s] % 2 == 0 and s not in ('Li',)) else 0)))
+        return out
     if kind == 'Species-oxi':
         return [Species(s, {'Li': 1, 'Na': 1, 'S': -2, 'O': -2, 'P': 5, 'Si': 4}.get(s, 0)) for s in symbols]
     if kind == 'Element':
